@@ -389,6 +389,88 @@ pub proof fn lemma_dle_prefix_bounds(s: Seq<u8>, j: int)
     lemma_dle_bounds(t);
 }
 
+
+// ------------------------------------------------------------------ big-endian digit lemmas and ASCII digits
+pub proof fn lemma_dbe_bounds(s: Seq<u8>)
+    requires valid_digits(s)
+    ensures 0 <= dbe(s) < pow10(s.len() as int)
+    decreases s.len()
+{
+    if s.len() > 0 {
+        let t = s.drop_last();
+        assert forall|i: int| 0 <= i < t.len() implies t[i] <= 9 by { assert(t[i] == s[i]); }
+        lemma_dbe_bounds(t);
+        lemma_pow10_succ(t.len() as int);
+    }
+}
+/// dbe(s) == dbe(s[..j]) * 10^(len-j) + dbe(s[j..])
+pub proof fn lemma_dbe_split(s: Seq<u8>, j: int)
+    requires 0 <= j <= s.len()
+    ensures dbe(s) == dbe(s.subrange(0, j)) * pow10(s.len() - j) + dbe(s.subrange(j, s.len() as int))
+    decreases s.len() - j
+{
+    let n = s.len() as int;
+    if j == n {
+        assert(s.subrange(0, n) =~= s);
+        assert(s.subrange(n, n).len() == 0);
+    } else {
+        // peel the last digit
+        let t = s.drop_last();
+        lemma_dbe_split(t, j);
+        assert(t.subrange(0, j) =~= s.subrange(0, j));
+        let hi = s.subrange(j, n);
+        assert(hi.drop_last() =~= t.subrange(j, n - 1));
+        assert(hi.last() == s.last());
+        lemma_pow10_succ(n - 1 - j);
+        let a = dbe(s.subrange(0, j));
+        assert(10 * (a * pow10(n - 1 - j)) == a * pow10(n - j)) by (nonlinear_arith) requires pow10(n - j) == 10 * pow10(n - 1 - j);
+    }
+}
+pub open spec fn all_nine(s: Seq<u8>) -> bool { forall|i: int| 0 <= i < s.len() ==> s[i] == 9 }
+pub proof fn lemma_dbe_all_nine(s: Seq<u8>)
+    requires all_nine(s)
+    ensures dbe(s) == pow10(s.len() as int) - 1
+    decreases s.len()
+{
+    if s.len() > 0 {
+        let t = s.drop_last();
+        assert forall|i: int| 0 <= i < t.len() implies t[i] == 9 by { assert(t[i] == s[i]); }
+        lemma_dbe_all_nine(t);
+        lemma_pow10_succ(t.len() as int);
+    }
+}
+pub proof fn lemma_dbe_all_zero(s: Seq<u8>)
+    requires valid_digits(s)
+    ensures all_zero(s) <==> dbe(s) == 0
+    decreases s.len()
+{
+    if s.len() > 0 {
+        let t = s.drop_last();
+        assert forall|i: int| 0 <= i < t.len() implies t[i] <= 9 by { assert(t[i] == s[i]); }
+        lemma_dbe_all_zero(t);
+        lemma_dbe_nonneg(t);
+        if all_zero(s) { assert forall|i: int| 0 <= i < t.len() implies t[i] == 0 by { assert(t[i] == s[i]); } }
+        if dbe(s) == 0 { assert forall|i: int| 0 <= i < s.len() implies s[i] == 0 by { if i < t.len() { assert(s[i] == t[i]); } } }
+    }
+}
+/// ASCII digits '0'..'9' and their numeric digits
+pub open spec fn ascii_digits(s: Seq<u8>) -> bool { forall|i: int| 0 <= i < s.len() ==> 48 <= (#[trigger] s[i]) && s[i] <= 57 }
+pub open spec fn unascii(s: Seq<u8>) -> Seq<u8> { Seq::new(s.len(), |i: int| (s[i] - 48) as u8) }
+/// value of a big-endian ASCII digit string
+pub open spec fn dba(s: Seq<u8>) -> int { dbe(unascii(s)) }
+pub proof fn lemma_unascii(s: Seq<u8>)
+    requires ascii_digits(s)
+    ensures valid_digits(unascii(s)), unascii(s).len() == s.len(),
+            forall|i: int| 0 <= i < s.len() ==> #[trigger] unascii(s)[i] == s[i] - 48
+{}
+pub proof fn lemma_unascii_subrange(s: Seq<u8>, a: int, b: int)
+    requires 0 <= a <= b <= s.len()
+    ensures unascii(s.subrange(a, b)) =~= unascii(s).subrange(a, b)
+{}
+pub proof fn lemma_unascii_push(s: Seq<u8>, c: u8)
+    ensures unascii(s.push(c)) =~= unascii(s).push((c - 48) as u8)
+{}
+
 pub proof fn lemma_dbe_is_dle_rev(s: Seq<u8>)
     ensures dbe(s) == dle(s.reverse())
     decreases s.len()
